@@ -37,7 +37,7 @@ Fixpoint u_expr (e : expr) {struct e} : list construct :=
   match e with
   | ECol _ _ => [] | ELit => [] | EStar _ => []
   | EApp f a => (if N.eqb f f_concat && Nat.ltb 2 (exprs_len a) then [KConcatN] else []) ++ u_exprs a
-  | EWin _ a p o => u_exprs a ++ u_exprs p ++ u_exprs o
+  | EWin _ a p o _ => u_exprs a ++ u_exprs p ++ u_exprs o
   | ESub q => u_query q
   end
 with u_exprs (x : exprs) {struct x} : list construct :=
